@@ -461,4 +461,30 @@ theorem verifySelect_emit (s : Sess) (m : InMsg) (a b c : Bool) :
   repeat' split
   all_goals first | exact Or.inl rfl | exact verifyAppImpl_emit s m
 
+/-! ### one event -/
+
+theorem setState_connected (fuel : Nat) (s : Sess) (next : SState) (h : next.connected = true) :
+    setState fuel s next = s.setSt next := by
+  cases fuel with
+  | zero => rfl
+  | succ n => unfold setState; simp [h]
+
+theorem checkSessionTime_inrange (n : Nat) (s : Sess) (h : s.st.sessionTime = true) : checkSessionTime (n + 1) s true true = s := by
+  unfold checkSessionTime
+  simp [h]
+
+theorem checkTooLow_store (s x : Sess) (m : InMsg) (h : x.store.target = s.store.target) : checkTooLow x m = checkTooLow s m := by
+  unfold checkTooLow; rw [h]
+theorem checkTooHigh_store (s x : Sess) (m : InMsg) (h : x.store.target = s.store.target) : checkTooHigh x m = checkTooHigh s m := by
+  unfold checkTooHigh; rw [h]
+
+theorem resendMessages_shape (s : Sess) (b e : Int) (ho : s.out = true) (hq : s.toSend = []) :
+    resendMessages s b e = { s with log := ((replyPlan s.cfg.persist s.store b e).map Obs.wire).reverse ++ s.log } := by
+  rw [resendMessages_eq]
+  cases hp : replyPlan s.cfg.persist s.store b e with
+  | nil => simp [enqAll]
+  | cons m rest =>
+    rw [enqAll_out s m rest ho]
+    simp [Sess.wrote, Sess.keptQueue, hq]
+
 end Qfx.Sess
